@@ -310,6 +310,47 @@ func (env *SpecEnv) btreeSpec(name string, n *ast.CallExpr) (SV, bool) {
 		ret := map[string]string{"extStr": SStr, "extInt": SInt, "extBool": SBool, "extF64": SF64}[name]
 		rt := map[string]types.Type{"extStr": types.Typ[types.String], "extInt": types.Typ[types.Int], "extBool": types.Typ[types.Bool], "extF64": types.Typ[types.Float64]}[name]
 		return &Scalar{T: ufun("ext."+nm, sorts, ret, ts...), Ty: rt}, true
+	case "built":
+		// built(b): the content accumulated in the strings.Builder b (a *strings.Builder, or a local Builder variable)
+		var p *PtrV
+		if id, ok := n.Args[0].(*ast.Ident); ok {
+			if _, isBound := env.bound[id.Name]; !isBound {
+				for al := range st.cells {
+					if al.Comment == id.Name && al.Parent() == env.fr.fn {
+						if _, isPtr := al.Type().(*types.Pointer).Elem().Underlying().(*types.Pointer); !isPtr {
+							p = &PtrV{LV: &LVal{Alloc: al}}
+						}
+					}
+				}
+			}
+		}
+		if p == nil {
+			if id, ok := n.Args[0].(*ast.Ident); ok && env.fr.fn != nil {
+				for _, blk := range env.fr.fn.Blocks {
+					for _, ins := range blk.Instrs {
+						if al, ok := ins.(*ssa.Alloc); ok && al.Comment == id.Name {
+							if _, isPtr := al.Type().(*types.Pointer).Elem().Underlying().(*types.Pointer); !isPtr {
+								if rv, ok := env.fr.regs[al].(*PtrV); ok {
+									p = rv
+								}
+							}
+						}
+					}
+				}
+			}
+		}
+		if p == nil {
+			p = env.eval(n.Args[0]).(*PtrV)
+		}
+		var a *Term
+		if p.Addr != nil {
+			a = p.Addr
+		} else if p.LV != nil && p.LV.Alloc != nil {
+			a = intLit(-1000000 - int64(p.LV.Alloc.Pos()))
+		} else {
+			panic("spec: built() of an unsupported builder location")
+		}
+		return &Scalar{T: sel(e.heapArr(st, "G|builder|content", arrSort(SInt, SStr)), a, SStr), Ty: types.Typ[types.String]}, true
 	case "bytesIndex":
 		d := env.eval(n.Args[0]).(*SliceV)
 		return intSV(ufun("ext.bytes.Index", []string{SInt, SInt, SInt, SStr}, SInt, d.Base, d.Off, d.Len, scal(env.eval(n.Args[1])))), true
